@@ -156,7 +156,25 @@ fn scenarios(thorough: bool) -> Vec<Scn> {
         }
         add("oversized_header_list", St::Ready, frame(T_HEADERS, 5, 1, &big), Want::Either(vec![CALM, REFUSED, PROTOCOL, 2]));
     }
+    // SETTINGS value validation (RFC 9113 6.5.2): a max frame size of 0 must be refused before anything is framed with it
+    add("settings_max_frame_0_then_request", St::Ready, [settings(&[(5, 0)]), frame(T_HEADERS, 5, 1, &request_block(false, "/mf0"))].concat(), Want::Conn(vec![PROTOCOL], false));
+    add("settings_max_frame_2p24", St::Ready, settings(&[(5, 1 << 24)]), Want::Conn(vec![PROTOCOL], false));
+    add("settings_max_frame_max_ok", St::Ready, settings(&[(5, (1 << 24) - 1)]), Want::Alive);
+    add("settings_initial_window_max_ok", St::Ready, settings(&[(4, 0x7fff_ffff)]), Want::Alive);
+    {
+        // the connection is exactly at its stream limit (4): one more HEADERS is refused, and the DATA that
+        // follows it on the wire belongs to a refused (closed) stream, not to an idle one
+        let mut b = vec![];
+        for sid in [1u32, 3, 5, 7] {
+            b.extend(frame(T_HEADERS, 4, sid, &request_block(true, "/limit")));
+        }
+        b.extend(frame(T_HEADERS, 4, 9, &request_block(true, "/over")));
+        b.extend(frame(T_DATA, 0, 9, b"body-of-the-refused-stream"));
+        add("refused_stream_then_data", St::Ready, b, Want::Stream(9, vec![REFUSED]));
+    }
     // --- stream 1 open
+    // a legal WINDOW_UPDATE takes the stream window to exactly 2^31-1, then SETTINGS raises the initial window by one
+    add("open_settings_overflows_stream_window", St::Open, [wu(1, 0x7fff_ffff - 65535), settings(&[(4, 65536)])].concat(), Want::Conn(vec![FLOW], false));
     add("open_wu_stream_zero", St::Open, wu(1, 0), Want::Stream(1, vec![PROTOCOL]));
     add("open_wu_stream_overflow", St::Open, wu(1, 0x7fff_ffff), Want::Stream(1, vec![FLOW]));
     add("open_data_pad_too_long", St::Open, frame(T_DATA, 8, 1, &[9, b'a', b'b']), Want::Conn(vec![PROTOCOL], false));
@@ -269,6 +287,11 @@ fn run(front: std::net::SocketAddr, s: &Scn) -> Res {
             if !ok_rst && !ok_goaway {
                 bad("bb-wrong-error", format!("RST_STREAM({sid}) with one of {codes:?} was due"));
             }
+            if let Some(c) = goaway {
+                if c != NO_ERROR && !codes.contains(&c) {
+                    bad("bb-spurious-error", format!("a stream error was due, the whole connection was torn down with GOAWAY code {c}"));
+                }
+            }
             if ok_rst && alive_ping == Some(false) {
                 bad("bb-wedged", "the connection stopped answering after a stream error".into());
             }
@@ -316,6 +339,7 @@ fn main() {
     l.h2_max_continuation_frames = Some(3);
     l.h2_max_glitch_count = Some(10);
     l.h2_max_header_list_size = Some(4096);
+    l.h2_max_concurrent_streams = Some(4);
     configure_https(&mut w, l, front, back, false);
 
     if !probe(front) {
